@@ -51,6 +51,14 @@ def op_to_str(c):
     return indentizer(c['cfg']).to_str(build(c['c']))
 
 
+def op_helper(c):
+    """the ready-made indentizers all_dashes_t / initial_dash_t with their indentor argument omitted, SPACES, TAB or None"""
+    from dznpy.text_gen import all_dashes_t, initial_dash_t, Indentor
+    fn = all_dashes_t if c['helper'] == 'all' else initial_dash_t
+    ind = fn() if c['arg'] == 'omit' else fn({'spaces': Indentor.SPACES, 'tab': Indentor.TAB, 'none': None}[c['arg']])
+    return ind.to_list(build(c['c'])) if c['form'] == 'list' else ind.to_str(build(c['c']))
+
+
 def opt_tb(t):
     return None if t is None else tb_obs(t)
 
@@ -100,5 +108,5 @@ def op_table(c):
 
 
 main({'flatten': op_flatten, 'mk': op_mk, 'hist': op_hist, 'to_list': op_to_list, 'to_str': op_to_str,
-      'chunk': op_chunk, 'cond_chunk': op_cond_chunk, 'comment': op_comment, 'splitlines': op_splitlines,
+      'chunk': op_chunk, 'cond_chunk': op_cond_chunk, 'comment': op_comment, 'helper': op_helper, 'splitlines': op_splitlines,
       'strip': op_strip, 'table': op_table})
